@@ -818,3 +818,15 @@ MUTATIONS += [
     # the plain listing reports directories whose name is an id
     dict(id="C20-local-list-ids-reports-non-files", prop="C20", file=LB13, old="                if !entry.file_type().is_file() {\n                    return None;\n                }\n                let name = entry.file_name().to_string_lossy();\n                Id::parse_some(&name, tpe)", new="                let name = entry.file_name().to_string_lossy();\n                Id::parse_some(&name, tpe)"),
 ]
+
+MUTATIONS += [
+    # the defect fixed in ad06c3b, put back: end of the byte range computed in u32
+    dict(id="C20-opendal-range-end-in-u32", prop="C20", file="crates/backend/src/opendal.rs", old="        let range = u64::from(offset)..u64::from(offset) + u64::from(length);", new="        let range = u64::from(offset)..u64::from(offset + length);"),
+    # object-store ranged read starts at 0
+    dict(id="C20-opendal-range-from-zero", prop="C20", file="crates/backend/src/opendal.rs", old="        let range = u64::from(offset)..u64::from(offset) + u64::from(length);", new="        let range = 0..u64::from(offset) + u64::from(length);"),
+]
+
+MUTATIONS += [
+    # entering a directory forgets to push the current parent trees (leaving it later restores the wrong level)
+    dict(id="C11-set-dir-no-push", prop="C11", file=PAR13, old="        let old_tree = std::mem::replace(&mut self.trees, new_tree);\n        self.stack.push(old_tree);", new="        let _old_tree = std::mem::replace(&mut self.trees, new_tree);"),
+]
